@@ -34,8 +34,9 @@ type Program struct {
 	Tape      []byte   `json:"tape"`
 	Lossy     bool     `json:"lossy"` // tape governs message fates from the start
 	QuietMs   int      `json:"quiet_ms"`
-	ApplyMs   []int    `json:"apply_ms,omitempty"`   // per server: FSM.Apply/ApplyBatch takes this long while faults are allowed (a slow state machine)
-	LatencyMs int      `json:"latency_ms,omitempty"` // every message takes 1..LatencyMs ms (0: instantaneous)
+	Proto     []int    `json:"protocol_version,omitempty"` // per server: 0 = current (3), 2 = the previous protocol version
+	ApplyMs   []int    `json:"apply_ms,omitempty"`         // per server: FSM.Apply/ApplyBatch takes this long while faults are allowed (a slow state machine)
+	LatencyMs int      `json:"latency_ms,omitempty"`       // every message takes 1..LatencyMs ms (0: instantaneous)
 	Profile   string   `json:"profile"`
 }
 
